@@ -2150,7 +2150,7 @@ def run(ctx):
             keys.append("inherit-triple-ancestor-3:%s," % b['attribute'])
             wit = [v for v in ctx.violations if any(k in v[0] for k in keys)]
             text = ("read site %s::%s reads `%s` as `%s` (%s, lookup: %s): C09_read_sites_notation / C09_read_sites_uniform / "
-                    "C09_opacity_family_reader / C09_inherited_read_through_ancestors / C09_length_sites_converted no longer "
+                    "C09_opacity_family_reader / C09_inherited_read_through_ancestors / C09_noninherited_read_from_element / C09_length_sites_converted no longer "
                     "hold for the source-derived site table"
                     % (b['file'], b['function'], b['attribute'], b['reader'], b['method'], b['lookup']))
             if wit:
@@ -2196,6 +2196,10 @@ def run(ctx):
         "(presentation, non-presentation, unknown, foreign namespace), style attributes and 0-3 style sheets + injected sheet with "
         "universal/type/id/class/compound/descendant/child selectors, `inherit` and !important; non-trivial = some CSS or style "
         "declaration applies.  find-attr: svg>g>g>path chains with 3 enumerated properties from attribute/CSS/style/inherit.  "
+        "font-weight: chains svg > g* > text (fonts loaded, text preserved) of absent / absolute / bolder / lighter weights in attribute, style or "
+        "CSS spelling: span weight vs Gen.FontWeight.fw_resolve, and the same chain with normal<->400 / bold<->700 re-spelled anywhere (half of the "
+        "chains have such a weight above a relative keyword), compared preserved and flattened.  "
+        "selector: the style element sits at a random position among the children of the root / a g / defs (it is a previous sibling).  "
         "selector: random trees of 4-10 elements with id / class (multi-word) / foo / data-k / lang attributes and 2-8 rules whose "
         "selectors are drawn from the whole supported grammar (1-3 components, descendant / child / adjacent combinators, type or "
         "universal, up to 3 of #id .class [a] [a=v] [a~=v] [a|=v] :first-child :hover :link :lang()), half derived from an element of "
